@@ -114,9 +114,11 @@ class SymEnv(BaseEnv):
 
     def choice(self, name, n):
         """solver-enumerated choice in range(n): concrete python int on each path"""
-        v = self.sc.integer(name, 0, n - 1)
-        self.vars[name] = v
-        k = self.ctx.concretize(v.t)
+        import z3
+        if name in self.vars:
+            raise ValueError('choice name reused: %s' % name)
+        self.vars[name] = self.sc.SymInt(z3.Int(name))
+        k = self.ctx.choose_fresh(name, n)
         self.choices[name] = k
         return k
 
@@ -160,6 +162,13 @@ class SymEnv(BaseEnv):
 
     def note(self, s):
         self.ctx.note(s)
+
+    def count(self, key, n=1):
+        st = self.ctx.ex.stats
+        st[key] = st.get(key, 0) + n
+
+    def state(self, key):
+        self.ctx.ex.state_set.add(key)
 
     def ite(self, c, a, b):
         return self.sc.ite(self.sc.sbool(c), a, b)
@@ -240,6 +249,12 @@ class ConcreteEnv(BaseEnv):
             raise CheckFailed(label, 'impl=%s oracle=%s' % (a.tolist(), b.tolist()))
 
     def note(self, s):
+        pass
+
+    def count(self, key, n=1):
+        pass
+
+    def state(self, key):
         pass
 
     def ite(self, c, a, b):
